@@ -320,7 +320,7 @@ pub fn c15_random(ctx: &Ctx, rng: &mut Rng, seed: u64, quick: bool) -> History {
                     _ => {}
                 }
             }
-            steps.push(Step::Cli { query: "1 + 1".into(), exact: false, describe: false, env, split: false });
+            steps.push(Step::Cli { query: "1 + 1".into(), exact: false, describe: false, env, split: false, inject: None });
         } else {
             steps.push(Step::Start { session: c15_session(ctx, faults, subset.clone()) });
         }
@@ -606,6 +606,41 @@ pub fn c16_random(ctx: &Ctx, rng: &mut Rng, seed: u64, perms: Perms, class: usiz
     History { property: "C16".into(), seed, label, steps }
 }
 
+/// C16 with caller threads: two to four threads ask for the own words of a sample of facts on one
+/// handle that nobody has used yet (whatever the handle sets up on first use happens while the other
+/// callers are already asking).
+pub fn c16_threads(ctx: &Ctx, rng: &mut Rng, seed: u64, sample: usize) -> History {
+    let fakes = crate::dirstate::FAKE_PHRASES.len();
+    let own: Vec<&String> = ctx.qprime[..ctx.qprime.len() - fakes].iter().collect();
+    let t = rng.range(2, 4);
+    let mut queries = Vec::new();
+    let mut threads: Vec<Vec<usize>> = vec![Vec::new(); t];
+    for i in 0..sample.min(own.len()) {
+        let text = if sample >= own.len() { own[i].clone() } else { (*rng.pick(&own)).clone() };
+        threads[rng.below(t)].push(queries.len());
+        queries.push(QuerySpec { text, describe: true });
+    }
+    let len = rng.range(20, 300);
+    let style = rng.below(3);
+    let schedule: Vec<u8> = (0..len)
+        .map(|i| match style {
+            0 => 1 + rng.below(t) as u8,
+            1 => {
+                if rng.chance(1, 6) {
+                    1 + rng.below(t) as u8
+                } else {
+                    0
+                }
+            }
+            _ => 1 + (i % t) as u8,
+        })
+        .collect();
+    let (mode, label) = if rng.chance(2, 3) { (Mode::Mem, "fresh in-memory") } else { (Mode::Disk, "fresh on-disk") };
+    let n = queries.len();
+    let ops = vec![Op::Open { slot: 0, mode, plan: Plan::default() }, Op::Threads { slot: 0, queries, threads, schedule, iso_fresh: None }];
+    History { property: "C16".into(), seed, label: format!("{t} caller threads ask {n} facts' own words on a {label} handle nobody has used yet"), steps: vec![Step::Start { session: ctx.session(1, vec![], ops) }] }
+}
+
 // ---------------------------------------------------------------------------------------------
 // C18
 
@@ -744,7 +779,24 @@ pub fn c18_random(ctx: &Ctx, pool: &PhrasePool, rng: &mut Rng, seed: u64) -> His
         steps.push(Step::Fabricate { state: state(true, MetaSpec::Current, IndexSpec::Complete) });
     }
     let ops = vec![Op::Open { slot: 0, mode, plan: Plan::default() }, Op::Interleave { slot: 0, queries, acts, iso_slot: 1, iso_fresh: Some(mode) }];
-    steps.push(Step::Start { session: ctx.session(1, vec![], ops) });
+    // Sometimes the database under test is opened while one I/O error is injected. If the open fails
+    // there is nothing to ask; if the code carries on regardless, the handle it returns must behave
+    // like any other (the isolation handles are opened afterwards, without a fault).
+    let mut faults = Vec::new();
+    let mut label = label.to_string();
+    if rng.chance(1, 6) {
+        if mode == Mode::Disk && rng.chance(1, 2) {
+            // a directory that needs a rebuild, so that the rebuild points are reached
+            steps.clear();
+            steps.push(Step::Fabricate { state: state(true, MetaSpec::OtherHash, IndexSpec::Foreign) });
+        }
+        let pts: Vec<(&'static str, usize)> = all_points(ctx).into_iter().filter(|(p, _)| mode == Mode::Disk || p.starts_with("rebuild.") || p.starts_with("open.")).collect();
+        let (point, count) = *rng.pick(&pts);
+        let k = if count <= 1 { 0 } else { *rng.pick(&[0, count / 2, count - 1]) };
+        faults.push(Fault::Fail { point: point.to_string(), k, interrupted: false });
+        label = format!("{label} opened under fail@{point}#{k}");
+    }
+    steps.push(Step::Start { session: ctx.session(1, faults, ops) });
     History { property: "C18".into(), seed, label: format!("{n} queries on one {label} database"), steps }
 }
 
@@ -813,7 +865,8 @@ pub fn c18_recurrence(ctx: &Ctx, pool: &PhrasePool, rng: &mut Rng, seed: u64, qu
     let rounds = rng.range(1, 3);
     let mut at = 0;
     for r in 0..rounds {
-        let take = if r + 1 == rounds { fillers.len() - at } else { rng.range(1, (fillers.len() - at).max(1)) };
+        let left = fillers.len() - at;
+        let take = if r + 1 == rounds || left == 0 { left } else { rng.range(1, left) };
         for f in &fillers[at..at + take] {
             queries.push(QuerySpec { text: f.clone(), describe: rng.chance(1, 2) });
         }
@@ -1022,9 +1075,13 @@ pub fn c19_random(ctx: &Ctx, pool: &PhrasePool, rng: &mut Rng, seed: u64) -> His
     }
     // the first call performs whatever recovery the directory needs
     let (q0, e0, _) = queries[0].clone();
-    steps.push(Step::Cli { query: q0, exact: e0, describe: false, env: vec![], split: rng.chance(1, 3) });
+    steps.push(Step::Cli { query: q0, exact: e0, describe: false, env: vec![], split: rng.chance(1, 3), inject: None });
     for (q, exact, describe) in &queries {
-        steps.push(Step::Cli { query: q.clone(), exact: *exact, describe: *describe, env: vec![], split: rng.chance(1, 3) });
+        // sometimes one of the program's writes is interrupted (EINTR): that is not an error, the
+        // output must be what it is otherwise (the directory is complete by now, so the writes are
+        // those that print the results)
+        let inject = if ctx.caps_strace && rng.chance(1, 3) { Some(("write".to_string(), rng.range(1, 12), "EINTR".to_string())) } else { None };
+        steps.push(Step::Cli { query: q.clone(), exact: *exact, describe: *describe, env: vec![], split: rng.chance(1, 3), inject });
     }
     let texts: Vec<String> = queries.iter().map(|q| q.0.clone()).collect();
     steps.push(Step::Start {
